@@ -211,8 +211,8 @@ WITNESSES = [
     ("python-tag-member-not-identifier", "python", {}, "#[typeshare]\n#[serde(tag = \"t\", content = \"c\")]\npub enum E { _1(u8), B }\n"),
     ("kotlin-import-empty-package", "kotlin", {"package": ""}, None),
 ]
-# witnesses of repaired findings (python-generic-alias: 614135b, python-docstring-escape: 37d8a26,
-# scala-package-without-dot: fb91590): the oracle must accept the implementation's output now
+# witnesses of repaired findings (python-generic-alias: f8d1040, python-docstring-escape: af54d85,
+# scala-package-without-dot: 653aee1): the oracle must accept the implementation's output now
 REPAIRED = [
     ("scala-package-without-dot", "scala", {"package": "pkg"}, "#[typeshare]\npub struct S { pub a: u8 }\n"),
     ("scala-package-without-dot", "scala", {"package": "pkg"}, "#[typeshare]\npub struct S;\n"),
